@@ -1413,6 +1413,10 @@ package analysis
 // an entry (k, v) of the result comes from the input parameter p: p itself when it is not a $ref, else the parameter
 // obtained by resolving p's $ref in the document (never the unresolved placeholder)
 //@ fun entryFor(s *Spec, p spec.Parameter, k string, v spec.Parameter) bool = (p.Ref.String() == "" && v == p && k == mapKeyFromParam(p)) || (p.Ref.String() != "" && k == mapKeyFromParam(v) && ptrGets(*p.Ref.GetPointer(), box(s.spec), box(v)))
+// effParam(s, p): the parameter that p stands for: p itself, or the shared parameter its $ref resolves to
+//@ fun resolvesOK(s *Spec, p spec.Parameter) bool = p.Ref.String() == "" || (ptrOK(*p.Ref.GetPointer(), box(s.spec)) && ptrObj(*p.Ref.GetPointer(), box(s.spec)) is spec.Parameter)
+//@ fun effParam(s *Spec, p spec.Parameter) spec.Parameter = if p.Ref.String() == "" then p else ptrObj(*p.Ref.GetPointer(), box(s.spec)).(spec.Parameter)
+//@ fun allResolve(s *Spec, ps []spec.Parameter) bool = forall i in 0..len(ps) :: resolvesOK(s, ps[i])
 //@ fun allInline(ps []spec.Parameter) bool = forall i in 0..len(ps) :: ps[i].Ref.String() == ""
 
 //@ func (s *Spec) paramsAsMap(parameters, res, callmeOnError)
@@ -1421,14 +1425,14 @@ package analysis
 //@   panics when callmeOnError == nil
 //@   ensures forall k in dom(res) :: (old(k in dom(res)) && res[k] == old(res[k])) || (exists i in 0..len(parameters) :: entryFor(s, parameters[i], k, res[k]))
 //@   ensures forall k string :: old(k in dom(res)) ==> k in dom(res)
-//@   ensures allInline(parameters) ==> forall i in 0..len(parameters) :: mapKeyFromParam(parameters[i]) in dom(res) && (exists j in i..len(parameters) :: res[mapKeyFromParam(parameters[i])] == parameters[j] && mapKeyFromParam(parameters[j]) == mapKeyFromParam(parameters[i]))
-//@   ensures allInline(parameters) ==> forall k in dom(res) :: old(k in dom(res)) && res[k] == old(res[k]) || (exists i in 0..len(parameters) :: k == mapKeyFromParam(parameters[i]))
+//@   ensures allResolve(s, parameters) ==> forall i in 0..len(parameters) :: mapKeyFromParam(effParam(s, parameters[i])) in dom(res) && (exists j in i..len(parameters) :: res[mapKeyFromParam(effParam(s, parameters[i]))] == effParam(s, parameters[j]) && mapKeyFromParam(effParam(s, parameters[j])) == mapKeyFromParam(effParam(s, parameters[i])))
+//@   ensures allResolve(s, parameters) ==> forall k in dom(res) :: old(k in dom(res)) && res[k] == old(res[k]) || (exists i in 0..len(parameters) :: k == mapKeyFromParam(effParam(s, parameters[i])))
 //@   loop 1: modifies map res
 //@   loop 1: invariant old(callmeOnError) != nil ==> callmeOnError == old(callmeOnError)
 //@   loop 1: invariant forall k in dom(res) :: (old(k in dom(res)) && res[k] == old(res[k])) || (exists i in 0..idx :: entryFor(s, parameters[i], k, res[k]))
 //@   loop 1: invariant forall k string :: old(k in dom(res)) ==> k in dom(res)
-//@   loop 1: invariant allInline(parameters) ==> forall i in 0..idx :: mapKeyFromParam(parameters[i]) in dom(res) && (exists j in i..idx :: res[mapKeyFromParam(parameters[i])] == parameters[j] && mapKeyFromParam(parameters[j]) == mapKeyFromParam(parameters[i]))
-//@   loop 1: invariant allInline(parameters) ==> forall k in dom(res) :: old(k in dom(res)) && res[k] == old(res[k]) || (exists i in 0..idx :: k == mapKeyFromParam(parameters[i]))
+//@   loop 1: invariant allResolve(s, parameters) ==> forall i in 0..idx :: mapKeyFromParam(effParam(s, parameters[i])) in dom(res) && (exists j in i..idx :: res[mapKeyFromParam(effParam(s, parameters[i]))] == effParam(s, parameters[j]) && mapKeyFromParam(effParam(s, parameters[j])) == mapKeyFromParam(effParam(s, parameters[i])))
+//@   loop 1: invariant allResolve(s, parameters) ==> forall k in dom(res) :: old(k in dom(res)) && res[k] == old(res[k]) || (exists i in 0..idx :: k == mapKeyFromParam(effParam(s, parameters[i])))
 
 //@ fun noOp(s *Spec, method string, path string) bool = !(path in dom(docPaths(s)) && opAtM(docPaths(s)[path], strings.ToUpper(method)) != nil)
 //@ fun fromLists(s *Spec, a []spec.Parameter, b []spec.Parameter, k string, v spec.Parameter) bool = (exists i in 0..len(a) :: entryFor(s, a[i], k, v)) || (exists i in 0..len(b) :: entryFor(s, b[i], k, v))
@@ -1440,8 +1444,8 @@ package analysis
 //@   ensures result != nil && fresh(result)
 //@   ensures noOp(s, method, path) ==> len(result) == 0
 //@   ensures !noOp(s, method, path) ==> forall k in dom(result) :: fromLists(s, docPaths(s)[path].Parameters, opAtM(docPaths(s)[path], strings.ToUpper(method)).Parameters, k, result[k])
-//@   ensures !noOp(s, method, path) && allInline(docPaths(s)[path].Parameters) && allInline(opAtM(docPaths(s)[path], strings.ToUpper(method)).Parameters) ==> (forall i in 0..len(opAtM(docPaths(s)[path], strings.ToUpper(method)).Parameters) :: mapKeyFromParam(opAtM(docPaths(s)[path], strings.ToUpper(method)).Parameters[i]) in dom(result) && (exists j in i..len(opAtM(docPaths(s)[path], strings.ToUpper(method)).Parameters) :: result[mapKeyFromParam(opAtM(docPaths(s)[path], strings.ToUpper(method)).Parameters[i])] == opAtM(docPaths(s)[path], strings.ToUpper(method)).Parameters[j]))
-//@   ensures !noOp(s, method, path) && allInline(docPaths(s)[path].Parameters) && allInline(opAtM(docPaths(s)[path], strings.ToUpper(method)).Parameters) ==> (forall i in 0..len(docPaths(s)[path].Parameters) :: mapKeyFromParam(docPaths(s)[path].Parameters[i]) in dom(result))
+//@   ensures !noOp(s, method, path) && allResolve(s, docPaths(s)[path].Parameters) && allResolve(s, opAtM(docPaths(s)[path], strings.ToUpper(method)).Parameters) ==> (forall i in 0..len(opAtM(docPaths(s)[path], strings.ToUpper(method)).Parameters) :: mapKeyFromParam(effParam(s, opAtM(docPaths(s)[path], strings.ToUpper(method)).Parameters[i])) in dom(result) && (exists j in i..len(opAtM(docPaths(s)[path], strings.ToUpper(method)).Parameters) :: result[mapKeyFromParam(effParam(s, opAtM(docPaths(s)[path], strings.ToUpper(method)).Parameters[i]))] == effParam(s, opAtM(docPaths(s)[path], strings.ToUpper(method)).Parameters[j])))
+//@   ensures !noOp(s, method, path) && allResolve(s, docPaths(s)[path].Parameters) && allResolve(s, opAtM(docPaths(s)[path], strings.ToUpper(method)).Parameters) ==> (forall i in 0..len(docPaths(s)[path].Parameters) :: mapKeyFromParam(effParam(s, docPaths(s)[path].Parameters[i])) in dom(result))
 
 //@ func (s *Spec) ParamsFor(method, path)
 //@   requires s != nil && s.spec != nil && wfOps(s)
